@@ -43,6 +43,8 @@ pub struct Scen {
     pub dust_a: Vec<BigInt>, // per bank: asset shares abandoned by closed positions
     pub dust_l: Vec<BigInt>,
     pub hist: Vec<String>,
+    /// (account, bank) → the bank's asset tag at the moment the position was opened (our own record)
+    pub opened_tag: std::collections::HashMap<(Pubkey, Pubkey), u8>,
 }
 
 #[derive(Clone, Debug)]
@@ -55,6 +57,8 @@ pub enum Act {
     Accrue { b: usize },
     CollectFees { b: usize },
     CloseBalance { u: usize, b: usize },
+    /// the group admin re-tags a bank between the default and SOL classes (lending_pool_configure_bank)
+    Retag { b: usize, tag: u8 },
 }
 
 fn fx(v: marginfi_type_crate::types::WrappedI80F48) -> i128 {
@@ -82,6 +86,11 @@ impl Scen {
         );
         let admin = w.add_wallet(10_000_000_000);
         let group = w.add_group(admin);
+        // a third of the groups have program fees switched off (through the real instruction) while the
+        // global fee state still carries non-zero program-fee rates
+        if rng.chance(1, 3) {
+            let _ = w.exec(&crate::world::ix::config_group_fee(group, fee_admin, false));
+        }
         let nb = 2 + rng.below(3) as usize;
         let mut banks = vec![];
         for i in 0..nb {
@@ -136,6 +145,7 @@ impl Scen {
             dust_a: vec![BigInt::from(0); n],
             dust_l: vec![BigInt::from(0); n],
             hist: vec![],
+            opened_tag: Default::default(),
         }
     }
 
@@ -152,6 +162,25 @@ impl Scen {
             6 => self.remaining_capacity(b).saturating_add(rng.below(3)).saturating_sub(1),
             _ => 1_000_000 * (1 + rng.below(100)),
         };
+        // closable leftovers (active slot, less than one share on both sides) are closed eagerly, so that balance
+        // closure is exercised after time has passed on banks with deposits and debt
+        if rng.chance(1, 4) {
+            let mut cands = vec![];
+            for (ui, us) in self.users.iter().enumerate() {
+                let a = self.w.marginfi_account(&us.acct);
+                for (bi, h) in self.banks.iter().enumerate() {
+                    if let Some(bal) = a.lending_account.get_balance(&h.bank) {
+                        if fx(bal.asset_shares) < ONE && fx(bal.liability_shares) < ONE {
+                            cands.push((ui, bi));
+                        }
+                    }
+                }
+            }
+            if !cands.is_empty() {
+                let (u, b) = *rng.pick(&cands);
+                return Act::CloseBalance { u, b };
+            }
+        }
         match rng.below(20) {
             0..=2 => Act::Clock(*rng.pick(&[1i64, 5, 60, 3600, 86400, 604800, 31_536_000])),
             3..=7 => Act::Deposit { u, b, amt, upto: rng.chance(1, 4) },
@@ -160,6 +189,7 @@ impl Scen {
             14..=16 => Act::Repay { u, b, amt, all: rng.chance(1, 5) },
             17 => Act::Accrue { b },
             18 => Act::CollectFees { b },
+            19 if rng.chance(1, 2) => Act::Retag { b, tag: rng.below(2) as u8 },
             _ => Act::CloseBalance { u, b },
         }
     }
@@ -213,6 +243,11 @@ impl Scen {
                 let us = &self.users[*u];
                 ix::close_balance(&self.banks[*b], us.acct, us.wallet)
             }
+            Act::Retag { b, tag } => ix::configure_bank(
+                &self.banks[*b],
+                self.admin,
+                marginfi_type_crate::types::BankConfigOpt { asset_tag: Some(*tag), ..Default::default() },
+            ),
         })
     }
 
@@ -280,6 +315,41 @@ impl Scen {
 
     fn after_ok(&mut self, act: &Act, now: i64, pre_banks: &[Bank], pre_accts: &[MarginfiAccount], pre_delta: &[BigInt], rep: &mut Report) {
         let one = big(ONE);
+        // ---- C16: positions keep the asset tag they were opened with (own record, taken from the bank's tag in
+        // the pre-state of the instruction that opened the slot)
+        for u in &self.users {
+            let a = self.w.marginfi_account(&u.acct);
+            let mut live = vec![];
+            for bal in a.lending_account.balances.iter().filter(|b| b.is_active()) {
+                live.push(bal.bank_pk);
+                let key = (u.acct, bal.bank_pk);
+                match self.opened_tag.get(&key) {
+                    None => {
+                        let tag = self.banks.iter().position(|h| h.bank == bal.bank_pk).map(|i| pre_banks[i].config.asset_tag).unwrap_or(bal.bank_asset_tag);
+                        if bal.bank_asset_tag != tag {
+                            rep.fail(format!("C16 position opened with tag {} on a bank tagged {}; hist {:?}", bal.bank_asset_tag, tag, self.hist));
+                        }
+                        self.opened_tag.insert(key, tag);
+                    }
+                    Some(t) => {
+                        if *t != bal.bank_asset_tag {
+                            rep.fail(format!("C16 position's asset tag changed from {} (when opened) to {} by {:?}; hist {:?}", t, bal.bank_asset_tag, act, self.hist));
+                        }
+                    }
+                }
+            }
+            let acct = u.acct;
+            self.opened_tag.retain(|k, _| k.0 != acct || live.contains(&k.1));
+        }
+        if let Act::Retag { b, tag } = act {
+            let post = self.w.bank(&self.banks[*b].bank);
+            let mut expect = pre_banks[*b];
+            expect.config.asset_tag = *tag;
+            if post != expect {
+                rep.fail(format!("C12 re-tagging bank {} changed more than the asset tag; hist {:?}", b, self.hist));
+            }
+            return;
+        }
         let touched: Option<usize> = match act {
             Act::Deposit { b, .. } | Act::Withdraw { b, .. } | Act::Borrow { b, .. } | Act::Repay { b, .. } | Act::Accrue { b } | Act::CollectFees { b } | Act::CloseBalance { b, .. } => Some(*b),
             _ => None,
